@@ -594,13 +594,9 @@ static bool node_dead_now(struct ctx *c, int k)
 
 static void model_deaths(struct ctx *c)
 {
+    bool qsink_died = false;
 #if C12_QUEUE
-    /* the queue sink announces its end when it dies; the queue source, once nobody references it, asks its own
-     * loop to free it: two more out-of-band messages behind whatever this operation pushed */
-    if (c->qsink >= 0 && !c->rn[c->qsink].dead && node_dead_now(c, c->qsink) && c->dqt < MAXMSG) { c->dq[c->dqt].kind = DM_SRCEND; c->dqt++; }
-    if (c->qsrc >= 0 && !c->rn[c->qsrc].held && !c->rn[c->qsrc].dead && !node_dead_now(c, c->qsrc) && node_dead_now(c, c->qsink) && !c->refend_pushed && c->dqt < MAXMSG) {
-        c->refend_pushed = true; c->dq[c->dqt].kind = DM_REFEND; c->dqt++;
-    }
+    qsink_died = c->qsink >= 0 && !c->rn[c->qsink].dead && node_dead_now(c, c->qsink);
 #endif
     for (int k = 0; k < c->nn; k++) {
         struct rnode *r = &c->rn[k];
@@ -624,6 +620,15 @@ static void model_deaths(struct ctx *c)
         if (k == c->qsrc) { c->dqh = c->dqt; c->uqh = c->uqt; }     /* upipe_qsrc_free drains both out-of-band queues */
 #endif
     }
+#if C12_QUEUE
+    /* the queue sink announces its end when it dies; the queue source, once nobody references it, asks its own
+     * loop to free it: two more out-of-band messages behind whatever the dying pipes pushed */
+    if (qsink_died && c->dqt < MAXMSG) { c->dq[c->dqt].kind = DM_SRCEND; c->dqt++; }
+    if (c->qsrc >= 0 && !c->rn[c->qsrc].held && !c->rn[c->qsrc].dead && c->rn[c->qsink].dead && !c->refend_pushed && c->dqt < MAXMSG) {
+        c->refend_pushed = true; c->dq[c->dqt].kind = DM_REFEND; c->dqt++;
+    }
+#endif
+    (void)qsink_died;
 }
 
 static void scan_records(struct ctx *c)
